@@ -188,7 +188,7 @@ func keyImage(t *rm.Type, k string) []byte {
 }
 
 func runC12(r *ev.Run, thorough bool) {
-	r.Rule = "18 discriminator tables: (i) every pinned key through the factory function, through a full Decode of a reference message into a fresh receiver and into a reused receiver holding a body of another registered type, and through Encode with a nil body where the encoder fills it in: exactly the pinned body type, reference bytes, round trip; registered text keys with pad variations on the wire; (ii) unregistered keys: sample root table ALL 65,536 values; ApplID tables ALL strings of length <=2 and " + map[bool]string{false: "all 3-byte strings over a 17-byte alphabet", true: "ALL 2^24 three-byte strings"}[thorough] + " through the factory, the 17-byte-alphabet strings through full Decode and nil-body Encode; 32-bit tables neighbours/powers of two/byte-swaps" + map[bool]string{false: "", true: " and ALL 2^32 values through the factory"}[thorough] + "; oracle: registered => pinned type both ways, unregistered => error, no panic, no body; distinct = (table,key,mode)"
+	r.Rule = "18 discriminator tables: (i) every pinned key through the factory function, through a full Decode of a reference message into a fresh receiver and into a reused receiver holding a body of another registered type, and through Encode with a nil body where the encoder fills it in: exactly the pinned body type, reference bytes, round trip; registered text keys with pad variations on the wire; EVERY key at Hamming distance 1 (one byte replaced by any of the 255 others) of every registered key through factory, Decode and nil-body Encode; (ii) unregistered keys: sample root table ALL 65,536 values; ApplID tables ALL strings of length <=2 and " + map[bool]string{false: "all 3-byte strings over a 17-byte alphabet", true: "ALL 2^24 three-byte strings"}[thorough] + " through the factory, the 17-byte-alphabet strings through full Decode and nil-body Encode; 32-bit tables neighbours/powers of two/byte-swaps" + map[bool]string{false: "", true: " and ALL 2^32 values through the factory"}[thorough] + "; oracle: registered => pinned type both ways, unregistered => error, no panic, no body; distinct = (table,key,mode)"
 	var dyn []*rm.Type
 	for _, t := range bind.Types {
 		if t.DynField() >= 0 {
@@ -213,6 +213,20 @@ func runC12(r *ev.Run, thorough bool) {
 			kb := keyImage(t, k)
 			for _, m := range []string{"factory", "decode", "decode-reused", "fill"} {
 				run(kb, m)
+			}
+			// the complete Hamming-1 ball around every registered key: each byte of the key image replaced by each of the
+			// 256 byte values (a look-up that normalises, parses or hashes the key confuses neighbours first: "+10"/"010")
+			for pos := range kb {
+				for b := 0; b < 256; b++ {
+					if byte(b) == kb[pos] {
+						continue
+					}
+					nb := append([]byte{}, kb...)
+					nb[pos] = byte(b)
+					for _, m := range []string{"factory", "decode", "fill"} {
+						run(nb, m)
+					}
+				}
 			}
 			if tab.KeyKind == "text" {
 				// a registered key with surrounding white space / NUL in the message object's key field (which is a Go
